@@ -394,6 +394,15 @@ func main() {
 					}
 				}
 			}
+			if !r.Thorough() {
+				// quick: three threads only for the agreement clause - two ComputeIfAbsent on one key
+				// against one writer of that key (thorough has every three-thread combination)
+				for _, w := range A {
+					if w.key == "a" && w.kind != oGet && w.kind != oCIA {
+						add(-1, init, [][]opSpec{{{oCIA, "a"}}, {{oCIA, "a"}}, {w}})
+					}
+				}
+			}
 			if r.Thorough() {
 				// two threads, two operations each, on key a and the snapshot reads
 				var Aa []opSpec
